@@ -191,7 +191,7 @@ func runC03(t *T) {
 	fs, st, desc := c03Stack(t, kind)
 	alpha := []string{"a", "b", "c"}
 	if c.Chance(1, 4) && c03Family(kind) != "mount" {
-		alpha = []string{"a", "ab", "b"}
+		alpha = [][]string{{"a", "ab", "b"}, {"a", "a.x", "b"}}[c.Draw(2)]
 	}
 	probe := candidatePaths(alpha, 3)
 	g := newFsGen(t, alpha, 3)
